@@ -2,6 +2,7 @@
 import re
 from vflib import thir as T, tables
 from vflib.terms import Evaluator, Tm, subterms
+from rules import shared
 
 META = {
     "level": "other",
@@ -162,7 +163,7 @@ def r2_r3(prog, ev, rep, sites):
                 rep.ok("C03-R2", key, where, "member key and value from one as_object() item")
             continue
         # name selector: v = get(P.inner, K)~Some.0
-        key = "%s|name-step" % p
+        key = "%s|name-step" % shared.rk(prog, ev, p)
         if v.k == "proj" and v.a[0].k == "call" and v.a[0].a[0] == QT + "::get":
             g = v.a[0]
             looked_up = g.a[2]
@@ -211,7 +212,7 @@ def r4(prog, ev, rep):
     if conds:
         dep = [x for c in conds for x in subterms(c.a[0]) if x == keyp]
         if dep:
-            rep.bad("C03-R4", "%s|content-branch" % kp, where,
+            rep.bad("C03-R4", "%s|content-branch" % shared.rk(prog, ev, kp), where,
                     "the shape of the name step depends on the name's own text (`%s`): a member literally named 'x' (with quotes) "
                     "is reported like member x" % conds[0].a[0])
     fmts = [x for x in subterms(pt) if x.k == "call" and x.a[0] == "<format>"]
@@ -226,7 +227,7 @@ def r4(prog, ev, rep):
                 verbatim = True
     rep.check(okshape, "C03-R4", "%s|shape" % kp, where, "format!(\"{}['{}']\", path, name)", "no `path['name']` formatter found: %s" % pt)
     if verbatim:
-        rep.bad("C03-R4", "%s|no-escaping" % kp, where,
+        rep.bad("C03-R4", "%s|no-escaping" % shared.rk(prog, ev, kp), where,
                 "the member name reaches the formatter verbatim: a name containing `'` or `\\` or a control character cannot be "
                 "written unescaped in a Normalized Path")
     else:
